@@ -511,7 +511,7 @@ def bl6(ctx, R):
                             if a_ is not None:
                                 b2[p_] = _subst_all(a_, binding)
                         collect(t, b2, tuple(outer_guards) + tuple(_subst_all(g, binding) for g in guards), depth - 1)
-    collect(ws, {}, (), 1)
+    collect(ws, {}, (), 3)
     if len(events) != 2:
         bad = [c for c in ast.walk(prog.module("writer").tree) if isinstance(c, ast.Call) and isinstance(c.func, ast.Attribute)
                and c.func.attr == "replace" and c.args and isinstance(prog.try_fold(c.args[0], prog.module("writer")), bytes)]
@@ -605,7 +605,7 @@ def _bucket_form(prog, ws):
     return names, joined, node
 
 
-@rule("PO1", "parents are declared first and the written-state is updated only after the segment was written", floor=6)
+@rule("PO1", "parents are declared first and the written-state is updated only after the segment was written", floor=4)
 def po1(ctx, R):
     from .region import region, nodes_reaching, cone
     from .absval import eval_simple_function
@@ -672,6 +672,13 @@ def po1(ctx, R):
         (isinstance(n.ast, ast.Assign) and any(dotted(t) == "self._root_written" for t in n.ast.targets)) or
         (isinstance(n.ast, ast.AugAssign) and dotted(n.ast.target) == "self._groups_written") or
         any(call_name(c) in ("self._groups_written.update", "self._groups_written.add") for c in node_calls(n))))
+    if not stores:
+        # the bookkeeping moved into a helper method: the call that reaches it stands for the update
+        def updates_state(f):
+            return any((isinstance(n, ast.Assign) and any(dotted(t) == "self._root_written" for t in n.targets)) or
+                       (isinstance(n, ast.Call) and call_name(n) in ("self._groups_written.update", "self._groups_written.add")) for n in walk_body(f.node))
+        helpers = {m.qual for m in ws.cls.methods.values() if m is not ws and m.name != "__init__" and updates_state(m)}
+        stores = nodes_reaching(ctx, ws, cfg, helpers) if helpers else []
     if not stores:
         raise AnchorMissing("writer.TdmsWriter.write_segment: updates of _root_written/_groups_written")
     writes = nodes_reaching(ctx, ws, cfg, {"writer.TdmsSegment.write"})
